@@ -30,9 +30,6 @@ func newSeqCase(t *rapid.T, prop string, size uint64, rpcPct int) (*Exec, caseCf
 }
 
 func TestC02Seq(t *testing.T) {
-	if EnvInt("VERIF_SHARD", 0) == 0 {
-		probeKF2()
-	}
 	rapid.Check(t, func(t *rapid.T) {
 		x, cc := newSeqCase(t, "C02", seqDiskSize, 20)
 		defer func() { x.S.Stop() }()
